@@ -328,6 +328,13 @@ func runC11(r *rt.Runner) {
 		checkStartCase(c, env, "\n%!\n7", false)
 		checkStartCase(c, env, "%\n!7", false)
 		checkStartCase(c, env, "%%!\n7", false)
+		// things that are found in front of `%!` in files from other systems: a
+		// byte order mark, Ctrl-D, a printer job language header, a MacBinary or
+		// PFB header - the input does not begin with `%!`
+		for _, pre := range []string{"\xef\xbb\xbf", "\xfe\xff", "\xff\xfe", "\x04", "\x1b%-12345X", "\x1b%-12345X@PJL\n", "\x80\x01\x10\x00\x00\x00", "\r\n", "\x00", "\t", "\f", "\xc2\xa0", "\xe2\x80\x8b", "%", "!", "%%", "%\xef\xbb\xbf!"} {
+			checkStartCase(c, env, pre+"%!PS-AdobeFont-1.0\n/zz 42 def 7 8 9\n", false)
+			checkStartCase(c, env, pre+"%!", false)
+		}
 		// the first call passes the check and then fails: the check has been
 		// passed all the same, and is not repeated
 		for _, t := range []string{"%!\n1 (a) add", "%!\nexit", "%!\nnosuchname", "%!\ncurrentfile closefile", "%! 1 2\n{ 1 dict begin } loop", "%!PS\n1 2 stop 3", "%!\n16777216 array", "%!\n1 0 idiv",
@@ -404,6 +411,13 @@ var c11CutPinned = []string{
 	"errordict /undefined { pop 7 } put nosuchname nosuchname 8",
 	"errordict /stackoverflow { } put { 1 } loop",
 	"16777216 array",
+	// loops that announce far more rounds than they run: the budget counts what
+	// is executed, not what is announced
+	"7 1000000 { exit } repeat 1 add",
+	"0 1 1000000 { exit } for 5",
+	"1000000 { stop } repeat",
+	"3 2147483647 { pop exit } repeat 4",
+	"100000 string { exit } forall 6",
 	// large requests that succeed: they are one operation each, whatever they allocate
 	"65535 string pop 1", "5000 array length 2", "3000 dict pop 3", "1024 string 1025 array 1023 dict 4", "65535 array pop 65535 string pop 5",
 	"currentfile eexec\n" + hexSection("{ 1 1 } loop "),
